@@ -129,8 +129,10 @@ class XMLParser(object):
         parser.CommentHandler = self._handle_comment
 
         # Tell Expat that we'll handle non-XML entities ourselves
-        # (in _handle_other)
-        parser.DefaultHandler = self._handle_other
+        # (in _handle_other). The "expand" variant of the default handler is
+        # used so that references to general entities declared in the internal
+        # DTD subset of the document are still expanded by Expat
+        parser.DefaultHandlerExpand = self._handle_other
         parser.SetParamEntityParsing(expat.XML_PARAM_ENTITY_PARSING_ALWAYS)
         parser.UseForeignDTD()
         parser.ExternalEntityRefHandler = self._build_foreign
